@@ -324,16 +324,71 @@ fn hostile_case(idx: u64, rec: &mut Rec) {
     }
 }
 
+/// The query of a reference is data: it is taken over as it stands (RFC 3986 section 5.2.2), and a reserved
+/// character is not equivalent to its percent-encoding (section 2.2). The apostrophe is the one character that
+/// RFC 3986 allows in a query and the WHATWG parser behind the crate rewrites (to %27).
+const APOS_BASES: [&str; 3] = ["http://a.test/dir/file?q='base'", "https://a.test/x", "http://a.test:8080/d/"];
+const APOS_LOCS: [&str; 8] = ["/search?name=O'Brien", "other?k='v'#frag", "", "?n='", "http://b.test/p?x='y'", "//b.test/p?'", "/it's/path?plain=1", "#only-a-fragment"];
+
+fn apostrophe_case(idx: u64, rec: &mut Rec) {
+    let start = APOS_BASES[(idx % 3) as usize];
+    let loc = APOS_LOCS[((idx / 3) % 8) as usize];
+    let status = [301u16, 302, 307][((idx / 24) % 3) as usize];
+    let cfg = ReqCfg::new("GET", start);
+    let want = UriRef { fragment: None, ..resolve(&split_uri(start), &split_uri(loc)) };
+    let want_target = path_and_query(&want);
+    let res = guarded(|| -> Result<(String, String), String> {
+        let f = fast_to_recv(&cfg)?;
+        let mut h = RespHead::new(false, status);
+        h.fields.push(Field::new("Location", loc.as_bytes()));
+        let (end, _, _, _) = fast_response(f, &h.render())?;
+        match end {
+            End::Redirect(mut r) => match r.as_new_flow(RedirectAuthHeaders::Never) {
+                Ok(Some(nf)) => {
+                    let uri = nf.uri().to_string();
+                    let mut s = nf.proceed();
+                    let head = write_head_big(&mut s).map_err(|e| format!("head refused: {:?}", e))?;
+                    let h = parse_request_head_strict(&head)?;
+                    Ok((uri, h.target))
+                }
+                Ok(None) => Err("not followed".into()),
+                Err(e) => Err(format!("{:?}", e)),
+            },
+            End::Cleanup(_) => Err("no redirect state".into()),
+        }
+    });
+    rec.call();
+    rec.ev(|| format!("base {} Location {:?} ({}) -> {:?}; RFC 3986: {}", start, loc, status, res, normalise(&want)));
+    match res {
+        Err((l, m)) => rec.fail(&format!("C14/{}", panic_sig(&l, &m)), format!("Location {:?}: panic {} at {}", loc, m, l)),
+        Ok(Err(e)) => rec.fail("C14/valid-location-refused", format!("base {} Location {:?}: {}", start, loc, e)),
+        Ok(Ok((uri, target))) => {
+            rec.cov(if want_target.contains('\'') { "apostrophe/in-target" } else { "apostrophe/control" });
+            let uri_target = path_and_query(&split_uri(&uri));
+            for (what, got) in [("request line", &target), ("Flow::uri()", &uri_target)] {
+                if *got != want_target {
+                    let sig = if got.replace("%27", "'") == want_target { "C14/query-apostrophe-percent-encoded" } else { "C14/request-line-target" };
+                    return rec.fail(sig, format!("base {} Location {:?}: {} has {:?}, the resolved URI's path and query is {:?}", start, loc, what, got, want_target));
+                }
+            }
+        }
+    }
+}
+
 /// Requests in origin-form (`GET /path` with the Host spelled out) have no absolute URI to resolve
 /// against: an absolute Location still names its target, anything else cannot be resolved and is an
 /// error - never a panic, never a request to an origin nobody named.
 fn origin_form_case(idx: u64, rec: &mut Rec) {
-    const TARGETS: [&str; 3] = ["/path?x=1", "/", "/a/b/../c"];
+    // (the last three are authority-form targets whose text also reads as "scheme:something")
+    const TARGETS: [&str; 6] = ["/path?x=1", "/", "/a/b/../c", "http:80", "https:443", "a.test:443"];
     const LOCS: [&[u8]; 12] = [b"http://b.test/next", b"https://a.test/x?y=1#frag", b"http://b.test", b"//c.test/p", b"/next", b"next", b"../up", b"?q=2", b"", b"#f", b"\xff\xfe", b"http://[::1"];
-    let target = TARGETS[(idx % 3) as usize];
-    let loc = LOCS[(idx / 3 % 12) as usize];
-    let method = ["GET", "HEAD", "POST"][(idx / 36 % 3) as usize];
-    let status = [302u16, 307, 303][(idx / 108 % 3) as usize];
+    let target = TARGETS[(idx % 6) as usize];
+    let loc = LOCS[(idx / 6 % 12) as usize];
+    let method = ["GET", "HEAD", "POST"][(idx / 72 % 3) as usize];
+    let status = [302u16, 307, 303][(idx / 216 % 3) as usize];
+    if !target.starts_with('/') {
+        rec.cov("origin-form/authority-form-target");
+    }
     let mut cfg = ReqCfg::new(method, target);
     cfg.orig.push(("host".into(), b"a.test".to_vec()));
     let res = guarded(|| -> Result<Option<(String, String)>, String> {
@@ -490,20 +545,21 @@ impl Property for P {
         "C14"
     }
     fn rule(&self) -> String {
-        "chains of 1..4 redirects; Locations from a clean grammar on which RFC 3986 and WHATWG agree (absolute http/https with and without ports incl. explicit defaults and empty path, scheme-relative, path-absolute, relative with ./ ../ and dotted segment names, query-only, empty, fragments), 1..3 Location fields per response (last counts). Oracle: an independent implementation of RFC 3986 section 5.2 (validated on the section 5.4 examples) applied to the URI of the request just made; compared after scheme-based normalisation with Flow<Prepare>::uri(); fragment must be gone; the request line must carry that URI's path and query and Host its host (checked on the wire for the last and for intermediate hops). Missing and non-UTF-8 Locations must be errors. A hostile list (backslashes, userinfo tricks, bad ports, IPv6, other schemes, control characters, percent-encoded dots) is checked with the weak oracle only: no panic, and never a request to a host that is neither the base host nor named in the Location. The wire workload runs GET/HEAD/OPTIONS/TRACE/POST/DELETE through 301/302/303/307/308, a quarter of them with the Host of the first request spelled out; the hostile list includes 56 non-textual values around 256 bytes. class = reference kind x base shape x hop.".into()
+        "chains of 1..4 redirects; Locations from a clean grammar on which RFC 3986 and WHATWG agree (absolute http/https with and without ports incl. explicit defaults and empty path, scheme-relative, path-absolute, relative with ./ ../ and dotted segment names, query-only, empty, fragments), 1..3 Location fields per response (last counts). Oracle: an independent implementation of RFC 3986 section 5.2 (validated on the section 5.4 examples) applied to the URI of the request just made; compared after scheme-based normalisation with Flow<Prepare>::uri(); fragment must be gone; the request line must carry that URI's path and query and Host its host (checked on the wire for the last and for intermediate hops). Missing and non-UTF-8 Locations must be errors. A hostile list (backslashes, userinfo tricks, bad ports, IPv6, other schemes, control characters, percent-encoded dots, schemes without slashes, empty authorities) is met on the first and on the second hop and judged by the RFC 3986 reading of its authority: a followed reference without scheme and authority stays on the authority of the request just made, one with a scheme and no authority, or with an empty authority, is not followed; beyond that no panic, and never a request to a host that is neither the base host nor named in the Location. Path and query arrive as they stand (sub-delims, percent-encoded octets in either case; the apostrophe in a query is watched by a workload of its own, a listed known finding). Origin-form and authority-form requests have no base: only an absolute Location may be followed. The wire workload runs GET/HEAD/OPTIONS/TRACE/POST/DELETE through 301/302/303/307/308, a quarter of them with the Host of the first request spelled out; the hostile list includes 56 non-textual values around 256 bytes. class = reference kind x base shape x hop.".into()
     }
     fn assumptions(&self) -> Vec<String> {
         vec![
-            "strict comparison only on the clean grammar; outside it WHATWG (the url crate) and RFC 3986 legitimately differ".into(),
-            "requests never carry an explicit Host header".into(),
+            "the full comparison (URI, request line, Host) is made on the clean grammar; hostile values are judged by what RFC 3986 says about their authority (none, empty, or the current one) and otherwise only by no-panic and never-a-host-nobody-named".into(),
+            "section 5.2.2's non-strict reading (a scheme equal to the base's may be dropped: http:g) is accepted as well as the strict one".into(),
         ]
     }
     fn workloads(&self, tier: Tier) -> Vec<Workload> {
         vec![
             Workload::new("chains", tier.pick(20_000, 8_000_000), false, "random clean chains, URI compared at every hop"),
             Workload::new("wire", tier.pick(5_000, 2_000_000), false, "request line and Host of every intermediate hop"),
+            Workload::new("apostrophe", 72, true, "3 bases x 8 Locations with an apostrophe in query or path (and controls) x 3 statuses: path and query must arrive as they stand"),
             Workload::new("hostile", ((HOSTILE.len() + LONG_NON_TEXTUAL) * 6) as u64, true, "hostile Locations (55 hand-picked + 56 long non-textual ones around 256 bytes) x 3 bases x met on the first or on the second hop"),
-            Workload::new("origin-form", 3 * 12 * 3 * 3, true, "requests in origin-form with the Host spelled out x 12 Locations x 3 methods x 3 statuses: no absolute base to resolve against"),
+            Workload::new("origin-form", 6 * 12 * 3 * 3, true, "requests in origin-form and authority-form (http:80, https:443, a.test:443) with the Host spelled out x 12 Locations x 3 methods x 3 statuses: no absolute base to resolve against"),
             Workload::new("partial-two-locations", 54, true, "opt-in truncated 3xx heads carrying two different Location fields"),
             Workload::new("missing", 108, true, "missing / non-textual Location, alone, as the last of several fields, and after interim responses that carry a Location"),
         ]
@@ -514,6 +570,7 @@ impl Property for P {
             "chains" => chain_case(&mut rng, rec),
             "wire" => wire_case(&mut rng, rec),
             "hostile" => hostile_case(idx, rec),
+            "apostrophe" => apostrophe_case(idx, rec),
             "origin-form" => origin_form_case(idx, rec),
             "partial-two-locations" => partial_locations_case(idx, rec),
             _ => missing_case(idx, rec),
